@@ -525,21 +525,10 @@ func c06ErrName(err error) string {
 		return "noAcct"
 	case errors.Is(err, account.ErrNoPendingBatch):
 		return "noPending"
-	case err.Error() == "order modifier length mismatch",
-		err.Error() == "invalid number of modifiers":
-		return "lenOrder"
-	case err.Error() == "account modifier length mismatch":
-		return "lenAcct"
-	case strings.HasPrefix(err.Error(), "unsupported fee schedule"):
-		return "feeSched"
-	case strings.HasPrefix(err.Error(), "error getting order"):
-		return "getOrder"
-	case strings.HasPrefix(err.Error(), "error getting account"):
-		return "getAccount"
-	case strings.HasPrefix(err.Error(), "invalid ending account state"):
-		return "endingState"
 	}
-	return "other"
+	// every other failure is just "an error": no classification by message
+	// text (a reworded fmt.Errorf must change nothing)
+	return "err"
 }
 
 // observe calls every observation point of the property on the real DB.
@@ -612,10 +601,9 @@ func (d *c06DB) observe() *c06Obs {
 			}
 		case errors.Is(err, clientdb.ErrNoOrder):
 			ob.Eerr[n] = true
-		case err.Error() == "order event sub bucket not found":
-			ob.Enorefs[n] = true
 		default:
-			fail("GetOrderEvents", err)
+			// the order exists but its events cannot be listed
+			ob.Enorefs[n] = true
 		}
 	}
 	p, err := d.db.PendingBatchSnapshot()
@@ -644,8 +632,6 @@ func (d *c06DB) observe() *c06Obs {
 			ob.G[i] = d.fromSnap(s)
 		} else if errors.Is(err, clientdb.ErrNoOrder) {
 			ob.Gerr[i] = true
-		} else if !strings.Contains(err.Error(), "not found") {
-			fail("GetLocalBatchSnapshot", err)
 		}
 	}
 	return ob
@@ -1008,17 +994,18 @@ func (d *c06DB) reconnect(rpc string, removeOk bool) (string, *c06Rpc) {
 	}
 	cl := &c06Cleaner{d: d, removeOk: removeOk}
 	err := auctioneer.VerifStageCheckPendingBatch(d.db, cl, f)
+	// which step failed is read off the proxies' call traces, not the text
 	res := "ok"
 	if err != nil {
 		switch {
-		case strings.HasPrefix(err.Error(), "loading pending batch failed"):
-			res = "load"
-		case strings.HasPrefix(err.Error(), "querying finalized batch TX failed"):
-			res = "query"
-		case strings.HasPrefix(err.Error(), "error removing pending batch artifacts"):
+		case len(cl.calls) > 0 && !cl.removeOk:
 			res = "remove"
-		default:
+		case len(cl.calls) > 0:
 			res = "delete"
+		case f.req != nil:
+			res = "query"
+		default:
+			res = "load"
 		}
 	}
 	return joinOr(cl.calls, ",") + ";" + res, f
@@ -1552,6 +1539,21 @@ func (c *c06Case) step(op string) {
 		kind := "ok"
 		if !ok {
 			kind = "fail/" + res
+			if res == "err" {
+				// sub-class for the coverage histogram, from the call's inputs
+				os_, _ := parseKeyList(f[4])
+				oms, _ := parseOModLists(f[5])
+				as, _ := parseKeyList(f[6])
+				ams, _ := parseAModLists(f[7])
+				switch {
+				case len(os_) != len(oms):
+					kind = "fail/lenOrder"
+				case len(as) != len(ams):
+					kind = "fail/lenAcct"
+				case f[3] != "1":
+					kind = "fail/feeSched"
+				}
+			}
 		}
 		r.Count("stage/" + kind)
 		if ob.visible() != prev.visible() {
@@ -1892,7 +1894,11 @@ func (c *c06Case) step(op string) {
 			c.violate("reading an account changed the database")
 		}
 	default: // direct updates
-		r.Count("direct/" + f[0] + "/" + res)
+		dres := res
+		if f[0] == "updorders" && res == "err" {
+			dres = "lenOrder"
+		}
+		r.Count("direct/" + f[0] + "/" + dres)
 		if !ok {
 			break
 		}
